@@ -22,10 +22,10 @@ import (
 //     attempt: it returns the candidate (accepted) or an error (rejected). The
 //     complete tree of index choices of that call is the distribution of one
 //     attempt, whatever its shape;
-//   - "failing candidates are discarded and redrawn whole" then is a relation
-//     between calls: under the real budget, the choices of k rejected attempts
-//     followed by the choices of an attempt A give exactly A's single-attempt
-//     outcome, after exactly the sum of their draws (chainCheck).
+//   - likewise, with the budget set to k+1 attempts and the choices of k
+//     rejected attempts forced first, what follows is exactly the (k+1)-th
+//     attempt, and its distribution can be enumerated and judged like the
+//     first one's (attemptBehind): "retrying does not favour any valid string".
 
 // singleAttempt runs f with the retry budget set to one attempt.
 func singleAttempt(f func()) {
@@ -129,10 +129,7 @@ type cellResult struct {
 	Rejected  [][]uint32 // some rejected attempts' choices
 	EntBits   map[uint32]int
 	Leaves    int
-	All       []cellLeaf // every leaf, kept while the tree is small (chainCheck)
 }
-
-const keepLeaves = 3000
 
 // enumCell enumerates the complete tree of one attempt.
 func enumCell(r spg.CharRecipe, ref *refLeaf, maxLeaves int) (*cellResult, error) {
@@ -169,15 +166,9 @@ func enumCell(r spg.CharRecipe, ref *refLeaf, maxLeaves int) (*cellResult, error
 		default:
 			return fmt.Errorf("Generate returned neither a password nor an error")
 		}
-		if len(res.All) <= keepLeaves {
-			res.All = append(res.All, lf)
-		}
 		return nil
 	})
 	res.Leaves = leaves
-	if leaves > keepLeaves {
-		res.All = nil
-	}
 	ev.Leaves(int64(leaves))
 	if err == enum.ErrTooBig {
 		ev.Class("tree_beyond_leaf_budget_not_judged")
@@ -186,56 +177,72 @@ func enumCell(r spg.CharRecipe, ref *refLeaf, maxLeaves int) (*cellResult, error
 	return res, err
 }
 
-// chainCheck: with retries allowed, behind the choices of the given rejected
-// attempts, every attempt of the enumerated tree has exactly its single-attempt
-// outcome - an accepted one is returned as is; a rejected one is followed by a
-// complete, fresh attempt (the reference). The budget is set far above the
-// number of attempts chained, so that where exactly it ends (C13's business)
-// plays no part. It returns the number of runs made.
-func chainCheck(r spg.CharRecipe, cell *cellResult, rejected [][]uint32) (int, error) {
-	oT := spg.MaxTrials
-	spg.MaxTrials = 100000
-	defer func() { spg.MaxTrials = oT }()
-	ref := cell.Ref
+// attemptBehind enumerates the (k+1)-th attempt as such: the choices of k
+// rejected attempts are forced first and the budget is set to k+1 attempts, so
+// that whatever Generate does behind them is exactly one more attempt - a
+// password (accepted) or an error (rejected). Nothing is assumed about how that
+// attempt maps draws to characters, nor that it does so like the first one:
+// "retrying after a candidate that misses a requirement does not favour any
+// valid string" is judged on the distribution of this attempt (the caller
+// compares it with the reference set, like the first attempt's).
+func attemptBehind(r spg.CharRecipe, rejected [][]uint32, maxLeaves int) (*cellResult, error) {
+	oT, oR := spg.MaxTrials, spg.MaxFailRate
+	defer func() { spg.MaxTrials, spg.MaxFailRate = oT, oR }()
 	var prefix []uint32
 	for _, v := range rejected {
 		prefix = append(prefix, v...)
 	}
-	P := len(prefix)
-	runs := 0
-	for _, lf := range cell.All {
-		ch := append(append([]uint32{}, prefix...), lf.Vec...)
-		o := callForced(ch, ref.cyc(len(ch)), 0x52, r.Generate)
-		runs++
-		if o.Panic != nil {
-			return runs, fmt.Errorf("Generate panicked: %v", o.Panic)
-		}
-		if e := o.S.IndexLevelOK(); e != nil {
-			return runs, &ev.Inc{Why: e.Error()}
-		}
-		got := "<error>"
-		if o.Pw != nil {
-			got = o.Pw.String()
-		}
-		nd := len(o.S.Draws)
-		if lf.Acc {
-			if got != lf.Out {
-				return runs, fmt.Errorf("behind %d rejected attempts the draws %v produced %q, but the same draws produce %q on a fresh start: a retry is not a complete, independent redraw", len(rejected), lf.Vec, got, lf.Out)
-			}
-			if nd != len(ch) {
-				return runs, fmt.Errorf("behind %d rejected attempts (%d draws) an accepted attempt of %d draws was returned after %d draws", len(rejected), P, len(lf.Vec), nd)
-			}
-			continue
-		}
-		if got != ref.Out {
-			return runs, fmt.Errorf("after a rejected attempt (draws %v, behind %d others) the next attempt's draws %v produced %q, but the same draws produce %q on a fresh start: a retry is not a complete redraw", lf.Vec, len(rejected), ref.Choices, got, ref.Out)
-		}
-		if nd != len(ch)+ref.D {
-			return runs, fmt.Errorf("a rejected attempt was followed by %d further draws before success (a complete fresh attempt takes %d)", nd-len(ch), ref.D)
-		}
+	k := len(rejected)
+	// the prefix really is k failed attempts in a row: with a budget of k,
+	// an error after exactly its draws
+	spg.MaxTrials, spg.MaxFailRate = k, 1
+	o := callForced(prefix, nil, 0x53, r.Generate)
+	if o.Panic != nil {
+		return nil, fmt.Errorf("Generate panicked: %v", o.Panic)
 	}
-	ev.Leaves(int64(runs))
-	return runs, nil
+	if e := o.S.IndexLevelOK(); e != nil {
+		return nil, &ev.Inc{Why: e.Error()}
+	}
+	if o.Pw != nil || o.Err == nil || len(o.S.Draws) != len(prefix) {
+		ev.Class("rejected_attempts_do_not_chain_not_judged")
+		return nil, &ev.Skip{Why: "single-attempt rejections are not failed attempts in a row for this implementation"}
+	}
+	spg.MaxTrials = k + 1
+	res := &cellResult{Accepted: map[string]*big.Rat{}, AccW: new(big.Rat), RejW: new(big.Rat), EntBits: map[uint32]int{}}
+	var out outcome
+	leaves, err := enum.Enumerate(enum.Opts{Prefix: prefix, MaxLeaves: maxLeaves, TailKey: 0x54}, func(s *enum.Session) {
+		out = outcome{}
+		s.Run(func() { out.Pw, out.Err = r.Generate() })
+		out.Panic = s.Panic
+	}, func(l *enum.Leaf) error {
+		switch {
+		case out.Panic != nil:
+			return fmt.Errorf("Generate panicked: %v", out.Panic)
+		case out.Pw != nil:
+			s := out.Pw.String()
+			w, ok := res.Accepted[s]
+			if !ok {
+				w = new(big.Rat)
+				res.Accepted[s] = w
+			}
+			w.Add(w, l.Weight)
+			res.AccW.Add(res.AccW, l.Weight)
+			res.NAccepted++
+		case out.Err != nil:
+			res.RejW.Add(res.RejW, l.Weight)
+			res.NRejected++
+		default:
+			return fmt.Errorf("Generate returned neither a password nor an error")
+		}
+		return nil
+	})
+	res.Leaves = leaves
+	ev.Leaves(int64(leaves))
+	if err == enum.ErrTooBig {
+		ev.Class("tree_beyond_leaf_budget_not_judged")
+		err = &ev.Skip{Why: "attempt tree beyond the leaf budget"}
+	}
+	return res, err
 }
 
 // budgetCheck: MaxTrials rejected attempts in a row give an error after
